@@ -863,7 +863,10 @@ class Streams:
         self.stream_dilation(1500 if t else 300)
 
 
-def run(ck):
+def run(ck, also=()):
+    """`also`: modules with further stream classes (`run(ck, base)` continues on the same counters)"""
     s = Streams(ck)
     s.run()
+    for name in also:
+        __import__(name).run(ck, s)
     return s
